@@ -318,6 +318,22 @@ func init() {
 				}
 			}
 		}
+		// an operation name that is used twice: the error is located at the second name, which may stand on a later line
+		// than its `query` keyword (D88)
+		for _, pre := range []string{"query A { s } query ", "query A { s } query\n", "query A { s }\nquery # c\n ", "query A { s } query\n\n  ", "query A { s } query\r\n"} {
+			for _, post := range []string{" { s }", "{ s }", "\n{ s }", "#c\n{ s }"} {
+				doc := pre + "A" + post
+				obs := locOf(safeResolve(sroot, doc, "A", nil), "uplicate")
+				if obs.Tag == "noloc" {
+					o.Count("op-name-error-not-reached")
+					continue
+				}
+				o.Count("op-name")
+				o.Emit(Case{Term: N("c07op", A("opname"), S(doc), I(int64(len(pre))), I(int64(strings.LastIndex(pre, "query")+5))), Obs: obs,
+					Meta: map[string]interface{}{"doc": doc}, Nontrivial: true})
+				c07Envelope(o, sroot, doc, "A", nil, "op-name")
+			}
+		}
 		// an argument that is not declared, or given twice: the error is located at the argument's name (D82)
 		for _, pre := range []string{"{ s(", "{ s(\n", "{ s( # c\n  ", "{ s(a: 1, ", "{ s(a: 1\n"} {
 			for _, name := range []string{"z", "zz", "longname", "a"} {
